@@ -1622,7 +1622,9 @@ func (d *decoderCborBytes) kInterfaceNaked(f *decFnInfo) (rvn reflect.Value) {
 				if bfn.ext == SelfExt {
 
 					bytes = d.sideDecodeInput(bytes, d.attachState(!d.bytes))
-					sideDecode(d.hh, &d.h.sideDecPool, func(sd decoderI) { oneOffDecode(sd, rv2i(rvn), bytes, bfn.rt, true) })
+					d.depthIncr()
+					sideDecode(d.hh, &d.h.sideDecPool, func(sd decoderI) { oneOffDecode(sd, rv2i(rvn), bytes, bfn.rt, true, d.depth) })
+					d.depthDecr()
 				} else {
 					bfn.ext.ReadExt(rv2i(rvn), bytes)
 				}
@@ -5634,7 +5636,9 @@ func (d *decoderCborIO) kInterfaceNaked(f *decFnInfo) (rvn reflect.Value) {
 				if bfn.ext == SelfExt {
 
 					bytes = d.sideDecodeInput(bytes, d.attachState(!d.bytes))
-					sideDecode(d.hh, &d.h.sideDecPool, func(sd decoderI) { oneOffDecode(sd, rv2i(rvn), bytes, bfn.rt, true) })
+					d.depthIncr()
+					sideDecode(d.hh, &d.h.sideDecPool, func(sd decoderI) { oneOffDecode(sd, rv2i(rvn), bytes, bfn.rt, true, d.depth) })
+					d.depthDecr()
 				} else {
 					bfn.ext.ReadExt(rv2i(rvn), bytes)
 				}
